@@ -130,6 +130,29 @@ func c11Run(r *core.Run) {
 	cell := fmt.Sprintf("%s/key=%s", o.Sig(), ks)
 	r.Logf("cell %s restart=%v lenmode=%d", cell, restart, lenMode)
 
+	// ---- before anything else: the holder of another key is handed an assertion encrypted to this SP (it
+	// names this SP's certificate) and has to turn it down; what the rightful holder gets afterwards is what
+	// it would have got anyway
+	if o.EmbedCert != nil && t.Int(3, "c11.strangerfirst") == 1 {
+		so := *o
+		so.Rand = t.SubRand("c11.randstranger")
+		if x, err := world.EncryptAssertion(&so, []byte("<a>not for you</a>")); err == nil {
+			ea := &types.EncryptedAssertion{}
+			if xml.Unmarshal([]byte(x), ea) == nil {
+				other := 9 - spKey
+				oc := world.MintCert(other, s.Epoch.Add(-24*time.Hour), s.Epoch.Add(24*time.Hour), 1)
+				stranger := &tls.Certificate{Certificate: [][]byte{oc.DER}, PrivateKey: world.Key(other).RSA}
+				var got []byte
+				sout := world.Guard(func() error { var e error; got, e = ea.DecryptBytes(stranger); return e })
+				r.Fault("holder_of_another_key_tried_first")
+				if sout.Panic == "" && sout.OK() && len(got) > 0 {
+					r.Fail("round-trip", "C11/decrypted-by-the-holder-of-another-key", obs("cell", cell))
+					return
+				}
+			}
+		}
+	}
+
 	// ---- part A: byte equality of DecryptBytes, called directly (types-level API)
 	tc := &tls.Certificate{Certificate: [][]byte{spCert.DER}, PrivateKey: world.Key(spKey).RSA}
 	var lengths []int
@@ -335,6 +358,23 @@ func c11Run(r *core.Run) {
 	}
 	if t.Int(6, "c11.ambient") == 1 {
 		s.NeighbourNoise(world.Present(plainXML, false, 0))
+	}
+	if t.Int(4, "c11.otherfirst") == 1 {
+		// misrouted first: an SP of the same process that holds another key is offered the encrypted message
+		// (and has to turn it down); the rightful recipient's answer afterwards is what it would have been
+		cfg2 := *s.Node.Cfg
+		cfg2.Live, cfg2.Name = false, "sp-holding-another-key"
+		cfg2.EncKeyIdx = 9 - spKey
+		cfg2.EncCert = world.MintCert(cfg2.EncKeyIdx, s.Epoch.Add(-24*time.Hour), s.Epoch.Add(24*time.Hour), 1)
+		cfg2.EncStyle, cfg2.RejectedSetters = world.KeyField, 0
+		if n2, err := world.NewSPNode(&cfg2, r.Sim.Time); err == nil {
+			_, o2 := n2.ValidateResponse(world.Present(encXML, false, 6))
+			r.Fault("payload_first_offered_to_an_sp_holding_another_key")
+			if o2.Panic == "" && o2.OK() {
+				r.Fail("twin", "C11/decrypted-by-an-sp-that-does-not-hold-the-key", obs("cell", cell))
+				return
+			}
+		}
 	}
 	rp, op := s.Node.ValidateResponse(world.Present(plainXML, false, 0))
 	re, oe := s.Node.ValidateResponse(world.Present(encXML, t.Bool("c11.compress"), 6))
